@@ -74,13 +74,15 @@ SplitParent(c) ==
     ELSE LET i == MaxOf(Slashes(c))
          IN  IF i > 1 /\ c[i - 1] = SLASH THEN NONE
              ELSE Some(Raw(IF i = 1 THEN <<SLASH>> ELSE SubSeq(c, 1, i - 1)))
-\* Admissible answers of parent_path.  The documentation promises: fewer than two bytes ->
-\* None; a double separator -> None ("any double slash" in the text, the separator found in
-\* the code), root keeps "/".  For a trailing separator the (never executed) doc example
-\* first drops it while "split at the last separator" does not: both are admitted.
+\* Admissible answers of parent_path.  The statement says: split at the last separator.  The
+\* documentation adds: fewer than two bytes -> None; a double separator AT the split -> None
+\* (its example is "code//"), root keeps "/".  For a trailing separator the (never executed)
+\* doc example first drops it while "split at the last separator" does not: both are admitted.
+\* The doc sentence "any double slash" is not taken as licence to answer None when the double
+\* separator lies before the split ("a//b/c"): there the statement's split is well defined and
+\* demanded (round 6: an independent change that answers None on every "//" is a violation).
 ParentPath(c) ==
     {SplitParent(c)}
-    \cup (IF HasDoubleSlash(c) THEN {NONE} ELSE {})
     \cup (IF Len(c) >= 2 /\ c[Len(c)] = SLASH THEN {SplitParent(Chop(c))} ELSE {})
 
 \* file name = what follows the last separator; nothing follows -> None.  Without any
